@@ -23,6 +23,7 @@ def inRange (t : Int) : Bool := decide (MinNanoTime ≤ t) && decide (t ≤ MaxN
 /-- the quantifier domain, per operation -/
 def opInDomain : Op → Bool
   | .rp _ _ sgd raw => !raw || decide (sgd > 0)
+  | .sgd _ _ d => decide (d > 0)
   | .csg _ _ t => inRange t
   | .ms _ _ _ ts => ts.all inRange
   /- `DeletedAt` exactly at the Unix epoch is persisted as "not deleted"; wall-clock deletion
